@@ -53,7 +53,9 @@ def withinUlps (r : Val) (t : Sci) (extraRel : Rat := 0) : Verdict :=
   let lo := t.m.lo; let hi := t.m.hi
   if lo ≤ 0 then .undecided "enclosure not positive" else
   let l := ilog10 lo + t.k                        -- decimal exponent of the true value
-  let eT : Int := spacingExpS lo t.k              -- exponent of the format's spacing at the true value
+  -- exponent of the format's spacing at the true value; where the enclosure touches a point at which the
+  -- spacing changes (a power of ten, or (Cmax+1)·10^e), the spacing above that point is the unit
+  let eT : Int := max (spacingExpS lo t.k) (spacingExpS hi t.k)
   let extraLo := lo * extraRel; let extraHi := hi * extraRel
   match r with
   | .nan .. => .bad "NaN from finite operands"
